@@ -11,6 +11,8 @@ package main
 // needed-but-unknown result, makes the whole evaluation unknown (never a guess).
 
 import (
+	"fmt"
+	"os"
 	"go/constant"
 	"go/token"
 	"go/types"
@@ -145,6 +147,9 @@ func (ip *Interp) runClosure(fn *ssa.Function, args []any, binds []any, depth in
 	defer func() {
 		// a callee that got stuck only makes its result unknown; the caller is stuck only if it needs that result
 		if depth > 0 && ip.stuck != "" {
+			if os.Getenv("TWDEBUG") != "" {
+				fmt.Fprintf(os.Stderr, "interp: lost %s: %s\n", fnKey(fn), ip.stuck)
+			}
 			ip.lost = append(ip.lost, fn)
 			ip.stuck = ""
 		}
@@ -202,6 +207,12 @@ func (ip *Interp) runClosure(fn *ssa.Function, args []any, binds []any, depth in
 		return x, ok && x != nil
 	}
 	cells := map[*ssa.Alloc]*iArr{} // local allocations: scalars are 1-element arrays
+	type deferred struct {
+		fn    *ssa.Function
+		args  []any
+		binds []any
+	}
+	var defers []deferred
 	b := fn.Blocks[0]
 	var prev *ssa.BasicBlock
 	for {
@@ -295,6 +306,10 @@ func (ip *Interp) runClosure(fn *ssa.Function, args []any, binds []any, depth in
 								continue
 							}
 						}
+					}
+					if os.Getenv("TWDEBUG") != "" {
+						av, aok := get(x.X)
+						fmt.Fprintf(os.Stderr, "interp: unresolved load %s in %s: addr=%#v ok=%v\n", x.String(), fnKey(fn), av, aok)
 					}
 					delete(env, x)
 				default:
@@ -418,7 +433,40 @@ func (ip *Interp) runClosure(fn *ssa.Function, args []any, binds []any, depth in
 					}
 				}
 				delete(env, x)
-			case *ssa.Send, *ssa.Go, *ssa.Defer, *ssa.RunDefers, *ssa.Panic:
+			case *ssa.Defer:
+				// a deferred call of a module function or closure is run at RunDefers (named results live in cells it can reach)
+				var dfn *ssa.Function
+				var dbinds []any
+				if fv, ok := get(x.Call.Value); ok && !x.Call.IsInvoke() {
+					if cl, isCl := fv.(*iClosure); isCl {
+						dfn, dbinds = cl.fn, cl.binds // (StaticCallee also answers for closures, but without their bindings)
+					}
+				}
+				if dfn == nil {
+					dfn = x.Call.StaticCallee()
+				}
+				if dfn == nil || dfn.Blocks == nil || !ip.m.InModule(dfn) {
+					// a library call (file.Close(), mu.Unlock()): no effect on what is being evaluated
+					if dfn == nil {
+						ip.dirty = true
+					}
+					continue
+				}
+				dargs := make([]any, len(x.Call.Args))
+				for i, a := range x.Call.Args {
+					dargs[i], _ = get(a)
+				}
+				defers = append(defers, deferred{dfn, dargs, dbinds})
+			case *ssa.RunDefers:
+				for i := len(defers) - 1; i >= 0; i-- {
+					d := defers[i]
+					ip.runClosure(d.fn, d.args, d.binds, depth+1)
+					if ip.stopped {
+						return nil, false
+					}
+				}
+				defers = nil
+			case *ssa.Send, *ssa.Go, *ssa.Panic:
 				ip.dirty = true
 				if _, isP := x.(*ssa.Panic); isP {
 					return nil, false
@@ -744,9 +792,9 @@ func (ip *Interp) runClosure(fn *ssa.Function, args []any, binds []any, depth in
 						}
 					}
 				}
-				if sc == nil && !x.Call.IsInvoke() {
+				if !x.Call.IsInvoke() {
 					if fv, ok := get(x.Call.Value); ok {
-						if cl, isCl := fv.(*iClosure); isCl {
+						if cl, isCl := fv.(*iClosure); isCl && (sc == nil || sc == cl.fn) {
 							sc, clBinds = cl.fn, cl.binds
 						}
 					}
